@@ -1,3 +1,9 @@
 package main
 
-func collectMoreConstants() {}
+import (
+	"github.com/jamf/regatta/storage/cluster"
+)
+
+func collectMoreConstants() {
+	addN("cluster_noLeader", cluster.VerifNoLeader, "cluster.noLeader")
+}
